@@ -8,6 +8,7 @@ import (
 	"github.com/gopher-fleece/gleece/v2/generator/swagen/swagen30"
 	"github.com/gopher-fleece/gleece/v2/generator/swagen/swagen31"
 	"github.com/pb33f/libopenapi/datamodel/high/base"
+	"go.yaml.in/yaml/v4"
 )
 
 // C08 gate (engine-only: library and OS outcomes are injected as arbitrary successes/failures):
@@ -87,6 +88,8 @@ func vhEnumKinds30(s *openapi3.Schema) []string {
 			out = append(out, "integer")
 		case float64:
 			out = append(out, "number")
+		case bool:
+			out = append(out, "boolean")
 		default:
 			out = append(out, "other")
 		}
@@ -94,17 +97,126 @@ func vhEnumKinds30(s *openapi3.Schema) []string {
 	return out
 }
 
+// the JSON kind a scalar node is rendered with: its tag if it has one, otherwise what the YAML core schema resolves
+// the plain text to (the model below is checked against the library itself on every native replay)
+func vhYamlKind(n *yaml.Node) string {
+	kind := ""
+	switch n.Tag {
+	case "!!int":
+		kind = "integer"
+	case "!!float":
+		kind = "number"
+	case "!!str":
+		kind = "string"
+	case "!!bool":
+		kind = "boolean"
+	case "":
+		kind = vhResolvePlainScalar(n.Value)
+	default:
+		kind = "other"
+	}
+	if !symxIsSymbolic() {
+		if real := vhRealYamlKind(n); real != kind {
+			panic("harness model of YAML scalar resolution disagrees with the library: " + n.Value + " -> " + real + " vs " + kind)
+		}
+	}
+	return kind
+}
+
+func vhRealYamlKind(n *yaml.Node) string {
+	b, err := yaml.Marshal(n)
+	if err != nil {
+		return "error"
+	}
+	var v any
+	if yaml.Unmarshal(b, &v) != nil {
+		return "error"
+	}
+	switch v.(type) {
+	case string:
+		return "string"
+	case int, int64, uint64:
+		return "integer"
+	case float64:
+		return "number"
+	case bool:
+		return "boolean"
+	case nil:
+		return "null"
+	}
+	return "other"
+}
+
+func vhIsDigits(s string) bool {
+	if s == "" {
+		return false
+	}
+	for i := 0; i < len(s); i++ {
+		if s[i] < '0' || s[i] > '9' {
+			return false
+		}
+	}
+	return true
+}
+
+// plain scalars over the harness alphabets (digits, letters, '.', '-', 'e'): decimal integers, decimal floats,
+// true/false, null; everything else is a string
+func vhResolvePlainScalar(s string) string {
+	switch s {
+	case "", "~", "null", "Null", "NULL":
+		return "null"
+	case "true", "True", "TRUE", "false", "False", "FALSE":
+		return "boolean"
+	}
+	t := s
+	if t[0] == '-' || t[0] == '+' {
+		t = t[1:]
+	}
+	if vhIsDigits(t) {
+		return "integer"
+	}
+	// an exponent: mantissa [eE] [-+]? digits
+	for i := 0; i < len(t); i++ {
+		if t[i] == 'e' || t[i] == 'E' {
+			exp := t[i+1:]
+			if exp != "" && (exp[0] == '-' || exp[0] == '+') {
+				exp = exp[1:]
+			}
+			m := t[:i]
+			if vhIsDigits(exp) && (vhIsDigits(m) || vhIsDecimal(m)) {
+				return "number"
+			}
+			return "string"
+		}
+	}
+	if vhIsDecimal(t) {
+		return "number"
+	}
+	return "string"
+}
+
+// [0-9]*\.[0-9]* with at least one digit
+func vhIsDecimal(t string) bool {
+	dot := -1
+	for i := 0; i < len(t); i++ {
+		if t[i] == '.' {
+			dot = i
+			break
+		}
+	}
+	if dot >= 0 {
+		a, b := t[:dot], t[dot+1:]
+		if (a == "" || vhIsDigits(a)) && (b == "" || vhIsDigits(b)) && (a != "" || b != "") {
+			return true
+		}
+	}
+	return false
+}
+
 func vhEnumKinds31(s *base.Schema) []string {
 	var out []string
 	for _, n := range s.Enum {
-		switch n.Tag {
-		case "!!int":
-			out = append(out, "integer")
-		case "!!float":
-			out = append(out, "number")
-		default:
-			out = append(out, "string")
-		}
+		out = append(out, vhYamlKind(n))
 	}
 	return out
 }
@@ -132,6 +244,55 @@ func vhC08EnumTypes(maxVal int) {
 }
 
 func vh_C08_enum_types_Q() { vhC08EnumTypes(3) }
+
+// the same for the components of enum types (Models.Enums): values of every basic kind
+func vh_C08_model_enum_types_Q() {
+	goType := []string{"string", "int", "float64", "bool", "uint8"}[symxChoice("type", 5)]
+	want := map[string]string{"string": "string", "int": "integer", "float64": "number", "bool": "boolean", "uint8": "integer"}[goType]
+	var values []string
+	switch goType {
+	case "string":
+		// strings that look like numbers, booleans or null are still strings
+		values = []string{symxString("v0", 1, 2, "1a.-"), []string{"true", "null", "x", "1e3"}[symxChoice("v1", 4)]}
+	case "int", "uint8":
+		values = []string{symxString("v0", 1, 2, "12"), "7"}
+	case "float64":
+		values = []string{symxString("v0", 1, 1, "12") + "." + symxString("v0f", 1, 1, "05"), "3"}
+	default:
+		values = []string{"true", "false"}
+	}
+	models := &definitions.Models{Enums: []definitions.EnumMetadata{{Name: "E", Type: goType, Values: values}}}
+	doc30, doc31 := vhNewDoc30(), vhNewDoc31()
+	symxAssert(swagen30.GenerateModelsSpec(doc30, models) == nil && swagen31.GenerateModelsSpec(doc31, models) == nil, "C08.model-enum.no-error")
+	e30 := doc30.Components.Schemas["E"]
+	e31, ok := doc31.Components.Schemas.Get("E")
+	symxAssert(e30 != nil && e30.Value != nil && ok && e31 != nil && e31.Schema() != nil, "C08.model-enum.component-present")
+	if e30 == nil || e30.Value == nil || !ok || e31 == nil || e31.Schema() == nil {
+		return
+	}
+	symxAssert(vhTyp30(e30.Value) == want && vhTyp31(e31.Schema()) == want, "C08.model-enum.declared-type")
+	// recorded finding: the components of enum types carry their values as text in 3.0 and as untagged scalars in 3.1
+	// (the repository's unit test and e2e golden files pin both), so non-string enums in 3.0 and string enums with
+	// number-, boolean- or null-looking values in 3.1 hold values that are not of the declared type
+	symxKnownFor("C08-model-enum-values-untyped", "C08.30.enum-values-belong-to-the-declared-type", want != "string")
+	looksTyped := false
+	for _, v := range values {
+		if vhResolvePlainScalar(v) != "string" {
+			looksTyped = true
+		}
+	}
+	symxKnownFor("C08-model-enum-values-untyped", "C08.31.enum-values-belong-to-the-declared-type", want == "string" && looksTyped)
+	// 3.1 first: a path inside the 3.0 part of the recorded finding ends at its first value
+	for vi, kinds := range [][]string{vhEnumKinds31(e31.Schema()), vhEnumKinds30(e30.Value)} {
+		ver := []string{"31", "30"}[vi]
+		symxAssert(len(kinds) == len(values), "C08."+ver+".model-enum-lists-every-value")
+		for _, k := range kinds {
+			symxCover("C08.model-enum.value")
+			ok := k == want || (want == "number" && k == "integer")
+			symxAssert(ok, "C08."+ver+".enum-values-belong-to-the-declared-type")
+		}
+	}
+}
 
 // ---- C08 closure of references
 //
